@@ -11,6 +11,7 @@ import (
 	"sync"
 	"time"
 
+	"verif/internal/geninst"
 	"verif/internal/seqgen"
 	"verif/seqrt"
 	"verif/tape"
@@ -19,6 +20,11 @@ import (
 // seqsim: C16 and C18. One package per seeded shape, one goderive run per
 // package, one build, one driver that links every package that compiled and
 // runs each package's enumeration of injection points / call histories.
+
+var c16Sequential func(o checkOpts) int
+
+// seqMapSites counts the range-over-map statements of generated code that were put behind the seam.
+var seqMapSites int
 
 type seqGen func(name string, t *tape.Tape) *seqgen.Shape
 
@@ -107,6 +113,17 @@ func seqRunShapes(prop string, seed int64, idxs []int, scratch, goderive string,
 			os.RemoveAll(filepath.Join(mod, name))
 		}
 	}
+	// the generated code under test ranges over maps (Keys, Equal, DeepCopy of maps, and through them
+	// Hash and Mem): that order belongs to the harness too
+	if os.Getenv("VERIF_SEQ_NO_MAPSEAM") == "" {
+		sites, err := geninst.RewriteMapRanges(mod, goEnv(), []string{"./..."}, "verif/seqrt", "seqrt", func(path string) bool {
+			return filepath.Base(path) == "derived.gen.go"
+		})
+		if err != nil {
+			harnessTrouble("rewriting the map ranges of the generated code: %v", err)
+		}
+		seqMapSites += len(sites)
+	}
 	// driver
 	var imps, calls []string
 	var good []int
@@ -118,10 +135,10 @@ func seqRunShapes(prop string, seed int64, idxs []int, scratch, goderive string,
 	sort.Ints(good)
 	for _, i := range good {
 		imps = append(imps, fmt.Sprintf("\t%q", "seqh/"+shapes[i].Name))
-		calls = append(calls, fmt.Sprintf("\tenc.Encode(%s.Run())", shapes[i].Name))
+		calls = append(calls, fmt.Sprintf("\temit(enc, %s.Run())", shapes[i].Name))
 	}
 	if len(good) > 0 {
-		drv := "package main\n\nimport (\n\t\"encoding/json\"\n\t\"os\"\n\n" + strings.Join(imps, "\n") + "\n)\n\nfunc main() {\n\tenc := json.NewEncoder(os.Stdout)\n" + strings.Join(calls, "\n") + "\n}\n"
+		drv := "package main\n\nimport (\n\t\"encoding/json\"\n\t\"os\"\n\n\t\"verif/seqrt\"\n\n" + strings.Join(imps, "\n") + "\n)\n\nfunc emit(enc *json.Encoder, r *seqrt.Result) {\n\tr.MapRanges, r.Uncontrolled = seqrt.MapRanges, seqrt.Uncontrolled\n\tenc.Encode(r)\n}\n\nfunc main() {\n\tenc := json.NewEncoder(os.Stdout)\n" + strings.Join(calls, "\n") + "\n}\n"
 		os.MkdirAll(filepath.Join(mod, "driver"), 0o755)
 		os.WriteFile(filepath.Join(mod, "driver", "main.go"), []byte(drv), 0o644)
 		bin := filepath.Join(scratch, "seqdriver.bin")
@@ -236,10 +253,18 @@ func seqCheck(o checkOpts, level, rule string, nQuick, nThorough int) int {
 	kinds := map[string]int{}
 	distinct := map[string]bool{}
 	var samples []any
+	mapRanges, uncontrolled := 0, 0
 	for _, r := range results {
 		cases += r.Cases
 		calls += r.Calls
 		faults += r.Faults
+		// cumulative per driver process: the last result of a batch carries the batch total
+		if r.MapRanges > mapRanges {
+			mapRanges = r.MapRanges
+		}
+		if r.Uncontrolled > uncontrolled {
+			uncontrolled = r.Uncontrolled
+		}
 	}
 	for _, i := range idxs {
 		sh := shapes[i]
@@ -263,13 +288,14 @@ func seqCheck(o checkOpts, level, rule string, nQuick, nThorough int) int {
 	cov["shapes_by_kind"] = kinds
 	cov["stage_invocations_observed"] = calls
 	cov["faults_fired"] = map[string]int{"stage_failure_injected": faults}
+	cov["map_iteration_seam"] = map[string]any{"range_statements_rewritten_in_generated_code": seqMapSites, "ranges_ordered_by_the_harness_largest_batch": mapRanges, "ranges_with_uncontrollable_keys": uncontrolled}
 	cov["exhaustive_per_shape"] = true
 	cov["simulated_time"] = "no clock; logical time = stage / function invocations observed"
 	cov["runs_per_hour"] = int(float64(cases) / wall * 3600)
 	cov["seeds"] = map[string]any{"base_seed": o.seed, "shape_index_from": 0, "shape_index_to": n, "seed_of_shape": "Mix(VERIF_SEED, property, shape index)"}
 	cov["components"] = map[string]any{
-		"real": []string{"goderive built from the working tree generating derived.gen.go for every shape package", "the generated helpers, compiled and executed unmodified by the Go toolchain"},
-		"stub": []string{"the stage functions / the memoised function (harness stubs that log their arguments and fail or count on command)"},
+		"real": []string{"goderive built from the working tree generating derived.gen.go for every shape package", "the generated helpers, compiled and executed by the Go toolchain (only their ranges over maps are redirected to the harness)"},
+		"stub": []string{"the stage functions / the memoised function (harness stubs that log their arguments and fail or count on command)", "iteration order of every range over a map in the generated code (seqrt.Keys: canonical order permuted per site and visit)"},
 	}
 	cov["build_s"] = buildTotal
 	cov["wall_s_total"] = wall
@@ -353,6 +379,17 @@ func seqReplay(prop, path string) int {
 func init() {
 	replayers["seqsim"] = seqReplay
 	checks["C16"] = func(o checkOpts) int {
+		// first part: every shape and injection point with one caller (seqsim); second part: one composed
+		// function called from several simulated tasks at once (chansim), coverage under "concurrent_callers"
+		if rc := c16Sequential(o); rc != 0 {
+			return rc
+		}
+		if os.Getenv("VERIF_C16_NO_CONCURRENT") != "" {
+			return 0
+		}
+		return chanCheckSub(o, "concurrent_callers")
+	}
+	c16Sequential = func(o checkOpts) int {
 		return seqCheck(o, "fault_enumeration",
 			"one shape = one generated package: a Compose chain of 2-4 stages with 0-2 initial parameters and 0-3 values between stages and at the end, an error form of Fmap (value / void / function+Join / tuple), the error form of Join, Traverse, or ToError with 0-2 parameters and 0-2 extra results, over {int, string, named int, named string, struct, arrays, pointer, slice, map, interface, float, bool, anonymous struct}; per shape the injection points are enumerated exhaustively: no failure, or each stage failing with each of two error values of different dynamic type (a failing stage returns non-zero partial results with its error); Traverse: every list length 0-5 x failure at every index; Join: outer error x inner failure; ToError: both truth values x both errors. evaluations = injection points executed; distinct_nontrivial = distinct shapes (kind + types); oracle = hand-written sequential composition with zero values by `var z T`: results DeepEqual, error identical (==), stage call log (order, arguments, exactly-once, none after the failing one) identical; a shape goderive accepts but whose output does not compile is a violation",
 			120, 3000)
